@@ -395,6 +395,52 @@ def file_level(ctx, ev):
         raise AnalysisError("cmd_cache_create.main: named bindings not recognised")
 
 
+def object_of(t):
+    """The container object a term denotes, whatever mutations the local name that holds it has seen (mutated(x, ...) is still x;
+    `x after a conditional mutation` is x)."""
+    while True:
+        if isinstance(t, App) and t.op == "mutated" and t.args:
+            t = t.args[0]
+            continue
+        if isinstance(t, App) and t.op == "phi":
+            a, b = object_of(t.args[1]), object_of(t.args[2])
+            if a == b:
+                t = a
+                continue
+        return t
+
+
+def _norm_objects(e):
+    """An effect with the receiver / container of a store, delete or method call reduced to the object it denotes."""
+    if isinstance(e, App) and e.op in ("eff:store", "eff:delitem") and e.args:
+        return App(e.op, (object_of(e.args[0]),) + tuple(e.args[1:]), e.node)
+    if isinstance(e, App) and e.op == "eff:call" and isinstance(e.args[0], App) and e.args[0].op.startswith("meth:") and e.args[0].args:
+        c = e.args[0]
+        return App("eff:call", (App(c.op, (object_of(c.args[0]),) + tuple(c.args[1:]), c.node),) + tuple(e.args[1:]), e.node)
+    if isinstance(e, App) and e.op in ("eff:if", "eff:loop", "eff:partial", "eff:alts", "seq"):
+        return App(e.op, [_norm_objects(a) for a in e.args], e.node)
+    return e
+
+
+def _is_not_as_is(guards):
+    """`x is not None` spelled as not(`x is None`) so that both ways of writing the test compare equal."""
+    out = []
+    for g, pol in guards:
+        if isinstance(g, App) and g.op == "is not":
+            out.append((App("is", g.args), not pol))
+        else:
+            out.append((g, pol))
+    return out
+
+
+def _norm_objects_term(t):
+    if isinstance(t, App) and t.op.startswith("meth:") and t.args:
+        return App(t.op, (object_of(t.args[0]),) + tuple(_norm_objects_term(a) for a in t.args[1:]), t.node)
+    if isinstance(t, App):
+        return App(t.op, [_norm_objects_term(a) for a in t.args], t.node)
+    return t
+
+
 def single_extract(ctx, ev):
     R = ctx.report
     repo = ctx.repo
@@ -404,7 +450,7 @@ def single_extract(ctx, ev):
     outs = [o for o in ev.outcomes(fi) if o.kind == "return"]
     outs = generic.sole_outcome(ctx, outs, f"{fq}: expected one outcome")
     o = outs[0]
-    eff = [strip_sites(e) for e in o.effects]
+    eff = [_norm_objects(strip_sites(e)) for e in o.effects]
     L = strip_sites(App("cborload", (App("open", (P("input_envelope"), Const("rb"))),)))
     raw, copy = env_map_of(L)
     ENV = copy if any(s == copy for e in eff for s in subterms(e)) else raw
@@ -417,8 +463,9 @@ def single_extract(ctx, ev):
     extracted = pops[0] if pops else None
     stores = [(e, g) for e, g in _with_guards(eff) if isinstance(e, App) and e.op == "eff:store" and e.args[0] in (ENV, raw)]
     rp = P("payload_replace_path")
+    given = lambda p_: [(App("is", (p_, Const(None))), False)]  # "a value was given for p", in normalised spelling
     ok = len(stores) == 1 and stores[0][0].args[1] == name and stores[0][0].args[2] == App("filebytes", (rp,)) \
-        and stores[0][1] == ((App("is not", (rp, Const(None))), True),)
+        and generic.norm_guards(_is_not_as_is(stores[0][1])) == given(rp)
     R.check("C11-D1g single payload", ok, "replacement: same name, whole binary content of the replacement file, only when a path is given",
             mod=fi.module, node=fi.node, function=fq, expected="if payload_replace_path is not None: envelope.value[payload_name] = <file bytes>",
             found=f"{[(repr(e)[:140], g) for e, g in stores]}"[:300])
@@ -430,8 +477,15 @@ def single_extract(ctx, ev):
             mod=fi.module, node=fi.node, function=fq, expected="cbor2.dump(envelope, open(output_envelope, 'wb'))", found=repr(dumps)[:240])
     writes = [(e, g) for e, g in _with_guards(eff) if isinstance(e, App) and e.op == "eff:write"]
     of = P("output_payload_file")
-    ok = len(writes) == 1 and writes[0][0].args[0] == App("open", (of, Const("wb"))) and writes[0][0].args[1] == extracted \
-        and writes[0][1] == ((App("is not", (of, Const(None))), True),)
+    # d.pop(k) if k in d else None is d.pop(k, None)
+    same_bytes = [extracted]
+    if extracted is not None:
+        plain = App("meth:pop", tuple(extracted.args[:2]))
+        for cont in (ENV, App("meth:keys", (ENV,))):
+            same_bytes.append(App("phi", (App("in", (name, cont)), plain, Const(None))))
+            same_bytes.append(App("phi", (App("in", (name, cont)), extracted, Const(None))))
+    ok = len(writes) == 1 and writes[0][0].args[0] == App("open", (of, Const("wb"))) and _norm_objects_term(writes[0][0].args[1]) in same_bytes \
+        and generic.norm_guards(_is_not_as_is(writes[0][1])) == given(of)
     R.check("C11-D1g single payload", ok, "the extracted bytes are written unmodified to the payload file when one is given", mod=fi.module,
             node=fi.node, function=fq, expected="open(output_payload_file, 'wb').write(extracted_payload)",
             found=f"{[(repr(e)[:140], g) for e, g in writes]}"[:300])
